@@ -186,3 +186,250 @@ pub fn engine_patch(rt: &tokio::runtime::Runtime, cases: Vec<Value>, out: &mut N
         let _ = std::fs::remove_dir_all(&root);
     }
 }
+
+// ---------------------------------------------------------------------------------------------
+// pathguard (C13): every path-taking operation with every path shape, through the real router
+// (so the auto-checkpoint hook sees the raw argument), inside a sentinel tree.
+
+fn write_file(p: &Path, content: &str) {
+    if let Some(parent) = p.parent() {
+        let _ = std::fs::create_dir_all(parent);
+    }
+    let _ = std::fs::write(p, content);
+}
+
+pub struct Sentinel {
+    pub base: PathBuf,
+    pub outer: PathBuf,
+    pub root: PathBuf,
+    pub elsewhere: PathBuf,
+}
+
+impl Sentinel {
+    pub fn new(base: PathBuf) -> Self {
+        let outer = base.join("outer");
+        let root = outer.join("root");
+        let elsewhere = base.join("elsewhere");
+        let s = Self { base, outer, root, elsewhere };
+        s.reset();
+        s
+    }
+    pub fn reset(&self) {
+        // outside the root: canaries under the same names as the workspace files
+        for d in [&self.outer, &self.elsewhere] {
+            let tag = if d == &self.outer { "CANARY-OUTER" } else { "DECOY-CWD" };
+            for e in std::fs::read_dir(d).into_iter().flatten().flatten() {
+                if e.path() != self.root {
+                    let _ = std::fs::remove_dir_all(e.path());
+                    let _ = std::fs::remove_file(e.path());
+                }
+            }
+            write_file(&d.join("a.txt"), &format!("{tag}-a\n"));
+            write_file(&d.join("secret.txt"), &format!("{tag}-secret\n"));
+            write_file(&d.join("sub/b.txt"), &format!("{tag}-b\n"));
+            write_file(&d.join("ü.txt"), &format!("{tag}-u\n"));
+        }
+        // the workspace (the checkpoint store under .rip is kept: it is observed, not reset)
+        for e in std::fs::read_dir(&self.root).into_iter().flatten().flatten() {
+            if e.file_name() != ".rip" {
+                let _ = std::fs::remove_dir_all(e.path());
+                let _ = std::fs::remove_file(e.path());
+            }
+        }
+        write_file(&self.root.join("a.txt"), "inside-a needle\n");
+        write_file(&self.root.join("sub/b.txt"), "inside-b needle\n");
+        write_file(&self.root.join("ü.txt"), "inside-u\n");
+    }
+    pub fn outside(&self) -> BTreeMap<String, String> {
+        let mut out = BTreeMap::new();
+        for (k, v) in util::tree(&self.outer) {
+            if !k.starts_with("root") {
+                out.insert(format!("outer/{k}"), v);
+            }
+        }
+        for (k, v) in util::tree(&self.elsewhere) {
+            out.insert(format!("elsewhere/{k}"), v);
+        }
+        out
+    }
+    pub fn workspace(&self) -> BTreeMap<String, String> {
+        util::tree(&self.root).into_iter().filter(|(k, _)| !k.starts_with(".rip")).collect()
+    }
+    pub fn store(&self) -> BTreeMap<String, String> {
+        util::tree(&self.root.join(".rip/checkpoints"))
+    }
+    pub fn store_text(&self) -> String {
+        let mut s = String::new();
+        for (_, v) in util::tree_contents(&self.root.join(".rip/checkpoints")) {
+            if let Some(h) = v.as_str() {
+                if let Ok(b) = hex::decode(h) {
+                    s.push_str(&String::from_utf8_lossy(&b));
+                }
+            }
+        }
+        s
+    }
+}
+
+fn comp_str(c: &str) -> String {
+    match c {
+        "a" => "a.txt".to_string(),
+        "sub" => "sub".to_string(),
+        "new" => "new.txt".to_string(),
+        "long" => "L".repeat(300),
+        "uni" => "ü.txt".to_string(),
+        other => other.to_string(),
+    }
+}
+
+pub fn render_path(shape: &Value, s: &Sentinel) -> String {
+    let comps: Vec<String> = shape["comps"]
+        .as_array()
+        .map(|a| a.iter().map(|c| comp_str(c.as_str().unwrap_or(""))).collect())
+        .unwrap_or_default();
+    let mut p = comps.join("/");
+    match shape["anchor"].as_str() {
+        Some("abs_out") => p = format!("{}/{}", s.outer.to_string_lossy(), p),
+        Some("abs_in") => p = format!("{}/{}", s.root.to_string_lossy(), p),
+        _ => {}
+    }
+    if shape["trail"].as_bool().unwrap_or(false) {
+        p.push('/');
+    }
+    p
+}
+
+async fn run_input(client: &reqwest::Client, base: &str, data: &Path, input: String) -> Vec<Value> {
+    let v: Value = client.post(format!("{base}/sessions")).send().await.unwrap().json().await.unwrap_or(Value::Null);
+    let id = v["session_id"].as_str().unwrap_or("").to_string();
+    let _ = client.post(format!("{base}/sessions/{id}/input")).json(&json!({"input": input})).send().await;
+    let deadline = std::time::Instant::now() + std::time::Duration::from_secs(10);
+    loop {
+        let frames = crate::runs::frames_of(data, &id);
+        if frames.iter().any(|f| f["type"] == "session_ended") || std::time::Instant::now() > deadline {
+            return frames;
+        }
+        tokio::time::sleep(std::time::Duration::from_millis(5)).await;
+    }
+}
+
+pub fn engine_pathguard(rt: &tokio::runtime::Runtime, cases: Vec<Value>, out: &mut NdjsonOut) {
+    let base = util::scratch_root().join(format!("pg-{}", uuid::Uuid::new_v4().simple()));
+    std::fs::create_dir_all(base.join("outer/root")).unwrap();
+    std::fs::create_dir_all(base.join("elsewhere")).unwrap();
+    let sent = Sentinel::new(base.clone());
+    let cwd_mode = cases.first().and_then(|c| c["cwd"].as_str()).unwrap_or("root").to_string();
+    let _ = std::env::set_current_dir(if cwd_mode == "root" { &sent.root } else { &sent.elsewhere });
+    let data = base.join("data");
+    std::fs::create_dir_all(&data).unwrap();
+    let ignore_variant = cases.first().and_then(|c| c["outer_ignore"].as_bool()).unwrap_or(false);
+    rt.block_on(async {
+        let server = crate::srv::Server::start(data.clone(), sent.root.clone(), None, false).await;
+        let basurl = server.base.clone();
+        let client = reqwest::Client::new();
+        for case in &cases {
+            sent.reset();
+            if ignore_variant {
+                // "active" files outside the root: if they are consulted, answers change
+                write_file(&sent.outer.join(".ignore"), "a.txt\nsub\nü.txt\n");
+                write_file(&sent.outer.join(".gitignore"), "a.txt\nsub\n");
+            }
+            let op = case["op"].as_str().unwrap_or("");
+            let p = render_path(&case["shape"], &sent);
+            let outside0 = sent.outside();
+            let ws0 = sent.workspace();
+            let store0 = sent.store();
+            let input = match op {
+                "read" => json!({"tool": "read", "args": {"path": p}}).to_string(),
+                "write" => json!({"tool": "write", "args": {"path": p, "content": "WRITTEN"}}).to_string(),
+                "ls" => json!({"tool": "ls", "args": {"path": p, "recursive": true}}).to_string(),
+                "grep" => json!({"tool": "grep", "args": {"pattern": "CANARY.OUTER|DECOY.CWD|needle", "path": p, "regex": true}}).to_string(),
+                "apply_patch" => json!({"tool": "apply_patch", "args": {"patch": format!("*** Begin Patch\n*** Add File: {p}\n+PATCHED\n*** End Patch")}}).to_string(),
+                "ckpt_create" => json!({"checkpoint": {"action": "create", "label": "l", "files": [p]}}).to_string(),
+                "ckpt_rewind" => json!({"checkpoint": {"action": "rewind", "id": p}}).to_string(),
+                "shell_cwd" => json!({"tool": "bash", "args": {"command": "pwd; cat secret.txt 2>/dev/null; echo probe > cwd_probe.txt", "cwd": p}}).to_string(),
+                _ => String::new(),
+            };
+            let mut frames: Vec<Value> = Vec::new();
+            if op == "task_cwd" {
+                let r = client
+                    .post(format!("{basurl}/tasks"))
+                    .json(&json!({"tool": "bash", "args": {"command": "pwd; cat secret.txt 2>/dev/null; echo probe > task_probe.txt", "cwd": p}}))
+                    .send()
+                    .await;
+                if let Ok(resp) = r {
+                    let st = resp.status().as_u16();
+                    let v: Value = resp.json().await.unwrap_or(Value::Null);
+                    frames.push(json!({"type": "http", "status": st}));
+                    if let Some(id) = v["task_id"].as_str() {
+                        let deadline = std::time::Instant::now() + std::time::Duration::from_secs(10);
+                        loop {
+                            let fr = crate::runs::frames_of(&data, id);
+                            let done = fr.iter().any(|f| f["type"] == "tool_task_status" && f["status"] != "running" && f["status"] != "queued");
+                            if done || std::time::Instant::now() > deadline {
+                                frames.extend(fr);
+                                break;
+                            }
+                            tokio::time::sleep(std::time::Duration::from_millis(5)).await;
+                        }
+                    }
+                }
+            } else {
+                frames = run_input(&client, &basurl, &data, input).await;
+            }
+            let text = serde_json::to_string(&frames).unwrap_or_default();
+            // did the operation itself report failure?
+            let failed = frames.iter().any(|f| {
+                f["type"] == "tool_failed"
+                    || f["type"] == "checkpoint_failed"
+                    || (f["type"] == "tool_ended" && f["exit_code"] != 0)
+                    || (f["type"] == "http" && f["status"] != 201)
+                    || (f["type"] == "tool_task_status" && f["status"] == "failed")
+            });
+            let outside1 = sent.outside();
+            let ws1 = sent.workspace();
+            let store1 = sent.store();
+            let mut rewind = Value::Null;
+            if op == "ckpt_create" && !failed {
+                // edit everything, then rewind: nothing outside may come back
+                if let Some(id) = frames.iter().find(|f| f["type"] == "checkpoint_created").and_then(|f| f["checkpoint_id"].as_str()) {
+                    for d in [&sent.outer, &sent.elsewhere] {
+                        for n in ["a.txt", "secret.txt", "sub/b.txt", "ü.txt"] {
+                            write_file(&d.join(n), "CHANGED-OUTSIDE\n");
+                        }
+                    }
+                    let before = sent.outside();
+                    // a rewind acts on the session that created the checkpoint: same session needed; the
+                    // router starts a fresh run per input on the same session id
+                    let sid = frames[0]["session_id"].as_str().unwrap_or("").to_string();
+                    let _ = client
+                        .post(format!("{basurl}/sessions/{sid}/input"))
+                        .json(&json!({"input": json!({"checkpoint": {"action": "rewind", "id": id}}).to_string()}))
+                        .send()
+                        .await;
+                    tokio::time::sleep(std::time::Duration::from_millis(60)).await;
+                    let after = sent.outside();
+                    rewind = json!({"outside_changed": before != after,
+                                    "diff": after.iter().filter(|(k, v)| before.get(*k) != Some(*v)).map(|(k, _)| k.clone()).collect::<Vec<_>>()});
+                }
+            }
+            let store_text = sent.store_text();
+            out.write(&json!({
+                "id": case["id"], "path": p, "failed": failed,
+                "outside_changed": outside0 != outside1,
+                "outside_diff": outside1.iter().filter(|(k, v)| outside0.get(*k) != Some(*v)).map(|(k, _)| k.clone())
+                    .chain(outside0.keys().filter(|k| !outside1.contains_key(*k)).cloned()).collect::<Vec<_>>(),
+                "ws_changed": ws0 != ws1, "store_changed": store0 != store1,
+                "leak_output": text.contains("CANARY-OUTER") || text.contains("DECOY-CWD"),
+                "leak_store": store_text.contains("CANARY-OUTER") || store_text.contains("DECOY-CWD") || store_text.contains("CHANGED-OUTSIDE"),
+                "rewind": rewind,
+                "answer": frames.iter().filter(|f| f["type"] == "tool_stdout").map(|f| f["chunk"].clone()).collect::<Vec<_>>(),
+            }));
+            // keep the store small
+            let _ = std::fs::remove_dir_all(sent.root.join(".rip/checkpoints"));
+        }
+        server.stop().await;
+    });
+    let _ = std::env::set_current_dir("/");
+    let _ = std::fs::remove_dir_all(&base);
+}
